@@ -704,23 +704,35 @@ func (p *Prog) methodOf(nt *types.Named, name string) *ssa.Function {
 // lessComponent: which component of the elements does Less read? "0"/"1" for [2]T arrays, field name for structs.
 func lessComponent(less *ssa.Function) (string, string) {
 	comps := map[string]bool{}
-	recv := less.Params[0]
-	eachInstr(less, func(b *ssa.BasicBlock, in ssa.Instruction) {
-		switch x := in.(type) {
-		case *ssa.IndexAddr:
-			if inner, ok := x.X.(*ssa.IndexAddr); ok && inner.X == ssa.Value(recv) {
-				if k, ok := constInt(x.Index); ok {
-					comps[fmt.Sprint(k)] = true
-				} else {
-					comps["?"] = true
+	// the comparator may read the elements through a method / function of its own it hands the collection to (e.seq(i) <= e.seq(j))
+	var scan func(f *ssa.Function, recv ssa.Value, depth int)
+	scan = func(f *ssa.Function, recv ssa.Value, depth int) {
+		eachInstr(f, func(b *ssa.BasicBlock, in ssa.Instruction) {
+			switch x := in.(type) {
+			case *ssa.IndexAddr:
+				if inner, ok := x.X.(*ssa.IndexAddr); ok && inner.X == recv {
+					if k, ok := constInt(x.Index); ok {
+						comps[fmt.Sprint(k)] = true
+					} else {
+						comps["?"] = true
+					}
+				}
+			case *ssa.FieldAddr:
+				if inner, ok := x.X.(*ssa.IndexAddr); ok && inner.X == recv {
+					comps[fieldName(inner.Type(), x.Field)] = true
+				}
+			case *ssa.Call:
+				if h := staticCallee(&x.Call); h != nil && len(h.Blocks) > 0 && h != f && depth < 2 {
+					for i, a := range x.Call.Args {
+						if a == recv && i < len(h.Params) {
+							scan(h, h.Params[i], depth+1)
+						}
+					}
 				}
 			}
-		case *ssa.FieldAddr:
-			if inner, ok := x.X.(*ssa.IndexAddr); ok && inner.X == ssa.Value(recv) {
-				comps[fieldName(inner.Type(), x.Field)] = true
-			}
-		}
-	})
+		})
+	}
+	scan(less, less.Params[0], 0)
 	if len(comps) != 1 {
 		var ks []string
 		for k := range comps {
